@@ -34,7 +34,33 @@ src/inner.h = T, RFC = R):
                ServerHello carries renegotiation_info iff the client offered the SCSV or the
                extension (R 5746 3.6).
   client auth  no certificate upon request: BR_ERR_NO_CLIENT_AUTH(29) on the server, tolerated under
-               BR_OPT_TOLERATE_NO_CLIENT_AUTH (H).
+               BR_OPT_TOLERATE_NO_CLIENT_AUTH (H). With any hash / curve subsets on both sides:
+               CertificateRequest (T, write-CertificateRequest; H: br_ssl_server_set_trust_anchor_names): types
+               rsa_sign(1) and ecdsa_sign(64) when the engine verifies RSA / ECDSA (the harness sets both),
+               rsa_fixed_ecdh(65) and ecdsa_fixed_ecdh(66) exactly when the suite is ECDH_*; in TLS 1.2 the
+               sign+hash list is "the engine capabilities": every SHA-1..SHA-512 function of the server engine
+               with RSA and with ECDSA, never MD5; the DN list is the configured trust anchor names.
+               Client (H: br_ssl_client_certificate_class.choose, br_ssl_client_set_single_rsa / _ec; T,
+               read-CertificateRequest): a Certificate message always answers the request ("it may be empty");
+               the single-chain handlers send their chain "whenever a client certificate is requested". The
+               signature hash in TLS 1.2 is taken among those "supported by both the client context and the
+               server" (server list trimmed to the client's hash functions) in the strict order SHA-256,
+               SHA-384, SHA-512, SHA-224, SHA-1 (src/inner.h, br_ssl_choose_hash) and is named, with the
+               signature type of the client key, in CertificateVerify (R 5246 7.4.8: it MUST be one of the
+               listed pairs); below TLS 1.2 it is MD5+SHA-1 for RSA and SHA-1 for ECDSA (H) and not named.
+               Full static ECDH (H, do_keyx; T): only with an ECDH_* suite, a client EC key on the curve of
+               the server key, usage KEYX, and - TLS 1.2 - a common hash for the issuer's signature type
+               (T: "The ECDH flags must be adjusted for RSA/ECDSA support"); then ClientKeyExchange is empty
+               and there is no CertificateVerify. Where static ECDH and ECDSA are both possible the handler
+               "chooses" (H): either is accepted. The server (H: br_ssl_server_set_trust_anchor_names,
+               BR_OPT_TOLERATE_NO_CLIENT_AUTH) validates the chain through its X.509 engine: the validator
+               must be fed exactly the certificates of the client's Certificate message, and a handshake with
+               a valid chain and signature completes. Not judged beyond "both sides agree and no completion
+               with an unauthenticated client without the tolerance flag": an ECDSA CertificateVerify when
+               the server engine's EC implementation lacks the curve of the client key (H: the engine's EC
+               implementation is used "for ECDSA support"; outcome not documented), static ECDH when the
+               client engine lacks the curve of the server key, no common hash in TLS 1.2 (cannot happen
+               within the caller's obligations: the PRF hash of the suite is on both sides).
   errors       a sent fatal alert a gives last_error 512+a, a received one 256+a (H).
   ServerHello  (client side, kind scripted_srv; a scripted peer answers a BearSSL client.) The client
                goes on, without error, iff: version within its [min, max] (H: BR_ERR_UNSUPPORTED_VERSION
@@ -56,6 +82,10 @@ src/inner.h = T, RFC = R):
                without the flag a foreign name is "report no matching name and carry on" (H); bodies of
                signature_algorithms, supported_groups, ec_point_formats are ignored (T); lengths add up
                (T: open-elt / close-elt). The next message must be a Certificate (H: BR_ERR_UNEXPECTED).
+               A complete Certificate message with an empty certificate list (R 5246 7.4.2: the sender's
+               certificate MUST come first in the list; T read-Certificate: "Empty: 0", refused by
+               read-Certificate-from-server) or whose 3-byte body announces a non-empty list must make the
+               client fail; H does not pin the code of either.
                The error code is judged where H pins it down, else only "fails" (unjudged_error_code_*).
                H documents no alert for these refusals (a sent alert a would show as last_error 512+a):
                alerts are counted, not demanded. After acceptance: br_ssl_engine_get_version (H: "set
@@ -66,6 +96,7 @@ Where several documented failures apply at once their precedence is not document
 them is accepted. What is not documented is executed but not judged (counters unjudged_*).
 """
 import json
+import os
 import sys
 
 # ---------------------------------------------------------------------------------------------
@@ -371,6 +402,113 @@ def parse_server_hello(hexs):
 
 
 # ---------------------------------------------------------------------------------------------
+# client authentication: decoders and the fixtures (DER files; the C side uses a generated header)
+
+FIXTURE_DIR = os.path.join(os.path.dirname(os.path.abspath(__file__)), '..', 'fixtures', 'tls')
+CLIENT_KEY_CURVE = 23       # cli_ec: P-256, issued by the EC root, keyAgreement + digitalSignature; handler usages KEYX | SIGN
+_fixture_cache = {}
+
+
+def _fixture(name):
+    if name not in _fixture_cache:
+        with open(os.path.join(FIXTURE_DIR, name), 'rb') as f:
+            _fixture_cache[name] = f.read()
+    return _fixture_cache[name]
+
+
+def client_chain(cert):
+    """the chain configured for C['cert'] (harness/tlspair.h: single certificate)"""
+    return [[], [_fixture('cli_rsa.crt.der')], [_fixture('cli_ec.crt.der')]][cert]
+
+
+def _der_tlv(b, o):
+    tag, ln = b[o], b[o + 1]
+    o += 2
+    if ln & 0x80:
+        n = ln & 0x7F
+        ln = int.from_bytes(b[o:o + n], 'big')
+        o += n
+    return tag, o, o + ln
+
+
+def cert_subject(der):
+    """the encoded subject Name of a certificate"""
+    _, s, _ = _der_tlv(der, 0)
+    _, s, _ = _der_tlv(der, s)          # tbsCertificate
+    t, _, e = _der_tlv(der, s)
+    if t == 0xA0:                       # version
+        s = e
+    for _ in range(4):                  # serialNumber, signature, issuer, validity
+        _, _, s = _der_tlv(der, s)
+    _, _, e = _der_tlv(der, s)
+    return der[s:e]
+
+
+def trust_anchor_names():
+    return sorted(cert_subject(_fixture(n)) for n in ('ca_rsa.crt.der', 'ca_ec.crt.der', 'ca_other.crt.der'))
+
+
+def fnv1a64(b):
+    h = 0xCBF29CE484222325
+    for x in b:
+        h = ((h ^ x) * 0x100000001B3) & 0xFFFFFFFFFFFFFFFF
+    return h
+
+
+def parse_cert_request(body, version):
+    r = Rd(body)
+    out = dict(types=list(r.vec(1).b), sigalgs=None, names=[])
+    if version >= TLS12:
+        lst = r.vec(2)
+        out['sigalgs'] = []
+        while lst.left():
+            out['sigalgs'].append((lst.u(1), lst.u(1)))
+    lst = r.vec(2)
+    while lst.left():
+        out['names'].append(bytes(lst.vec(2).b))
+    if r.left():
+        raise Malformed('bytes after the CertificateRequest')
+    return out
+
+
+def parse_cert_list(body):
+    r = Rd(body)
+    lst = r.vec(3)
+    out = []
+    while lst.left():
+        out.append(bytes(lst.vec(3).b))
+    if r.left():
+        raise Malformed('bytes after the certificate list')
+    return out
+
+
+def parse_cert_verify(body, version):
+    """-> ((hash, sig) or None, signature bytes)"""
+    r = Rd(body)
+    alg = (r.u(1), r.u(1)) if version >= TLS12 else None
+    sig = bytes(r.vec(2).b)
+    if r.left():
+        raise Malformed('bytes after the CertificateVerify signature')
+    return alg, sig
+
+
+def client_auth_reference(C, S, version, suite):
+    """what the documentation says about a client-certificate request in a handshake that settled on version / suite"""
+    ecdh = SUITES[suite]['kx'] in ('ECDH_RSA', 'ECDH_ECDSA')
+    sha = {SHA1, SHA224, SHA256, SHA384, SHA512}
+    s_h, c_h = set(S['hashes']) & sha, set(C['hashes']) & sha
+    ca = dict(ecdh=ecdh)
+    ca['cr_types'] = {1, 64} | ({65, 66} if ecdh else set())
+    ca['cr_sigalgs'] = {(h, g) for h in s_h for g in (1, 3)} if version >= TLS12 else None
+    ca['no_common_hash'] = version >= TLS12 and not (s_h & c_h)
+    # full static ECDH: ECDH_* suite, client key (EC-issued, usage KEYX allowed) on the curve of the server key; in TLS 1.2 the
+    # fixed_ecdh types count only with a common hash for the issuer's signature type
+    ca['static_possible'] = (C['cert'] == 2 and ecdh and S['kcurve'] == CLIENT_KEY_CURVE
+                             and (version < TLS12 or bool(s_h & c_h)))
+    return ca
+
+
+# ---------------------------------------------------------------------------------------------
 # the reference negotiation
 
 class Offer:
@@ -570,7 +708,7 @@ class Checker:
         else:
             d['client_hello'] = case.get('ch')
         d['observed'] = {k: case.get(k) for k in ('oc', 'os', 'alerts', 'ske', 'sh', 'recs', 'plan', 'cx', 'mfln',
-                                                  'renegst', 'left', 'sess') if k in case}
+                                                  'renegst', 'left', 'sess', 'hs', 'cr', 'cv', 'cke_len') if k in case}
         d['replay'] = 'h_tls15 --seed %d --only %d --log <file>' % (case['seed'], case['i'])
         self.viols.append(('C15:' + key, what, d))
 
@@ -665,9 +803,6 @@ class Checker:
         C, S, oc, osv = case['C'], case['S'], case['oc'], case['os']
         self.stat('cases_pair')
         why = side_ok(C, True) or side_ok(S, False)
-        if not why and S['creq'] and (len(C['hashes']) != 6 or len(S['hashes']) != 6
-                                      or len(C['curves']) != 4 or len(S['curves']) != 4):
-            why = 'client authentication with reduced algorithms'
         if why:
             self.stat('unjudged_precondition')
             return
@@ -704,8 +839,20 @@ class Checker:
 
         e = negotiate(o, S)
         # client authentication comes after the parameters are settled
+        ca = client_auth_reference(C, S, e.version, e.suite) if S['creq'] and e.suite is not None else None
         if e.status == 'ok' and S['creq'] and C['cert'] == 0 and not (S['flags'] & OPT_TOLERATE_NO_CAUTH):
             e.status, e.server_err, e.why = 'server-local', 29, 'no client certificate and no tolerance flag'
+        if ca is not None and C['cert'] != 0:
+            silent = None
+            static_seen = ca['static_possible'] and case.get('cke_len') == 0
+            if e.status == 'ok' and ca['no_common_hash']:
+                silent = 'no common hash for the client signature'
+            elif e.status == 'fail-any' and e.why == 'server key curve not offered by the client' and ca['static_possible']:
+                silent = 'static ECDH possible but server key curve not in the client engine'
+            elif (e.status == 'ok' and C['cert'] == 2 and CLIENT_KEY_CURVE not in S['curves'] and not static_seen):
+                silent = 'ECDSA client key on a curve the server engine lacks'
+            if silent:
+                e.status, e.why = 'client-auth-unjudged', silent
         self.stat('expect_' + e.status)
         if e.why:
             self.stat('reason_' + e.why.replace(' ', '_'))
@@ -715,6 +862,9 @@ class Checker:
 
         if e.status == 'unjudged':
             self.stat('unjudged_doc_silent')
+            return
+        if e.status == 'client-auth-unjudged':
+            self._client_auth_safety(case, e, ca)
             return
         if e.status != 'ok':
             if any_done:
@@ -728,8 +878,19 @@ class Checker:
                 if osv['err'] != e.server_err:
                     self.viol('client-auth-mismatch', 'server last_error %d, documented %d (%s)'
                               % (osv['err'], e.server_err, e.why), case)
+                # the request, and the empty Certificate message that answered it
+                self.stat('client_auth_requested')
+                self.stat('client_auth_none_refused')
+                if not case.get('hs_truncated'):
+                    self._check_cert_request(case, e, ca)
+                    certs = self._check_client_chain(case, C)
+                    if certs is not None and (case.get('cv') is not None or osv['xnow'] != 0):
+                        self.viol('client-auth:proof-without-certificate', 'CertificateVerify %r / %d chains through the server '
+                                  'validator although the client has no certificate' % (case.get('cv'), osv['xnow']), case)
             else:
                 self.stat('cmp_fail_any')
+                if ca is not None and not case.get('hs_truncated'):
+                    self._check_cert_request(case, e, ca)
             # a failed engine refuses renegotiation
             for nm, ob in (('client', oc), ('server', osv)):
                 if ob['closed']:
@@ -742,7 +903,15 @@ class Checker:
         # ---- success expected
         if not both_done:
             self.viol('unexpected-failure', 'handshake failed (client err %d, server err %d, alerts %s); reference: '
-                      'version %04x suite %04x' % (oc['err'], osv['err'], case['alerts'], e.version, e.suite), case)
+                      'version %04x suite %04x%s' % (oc['err'], osv['err'], case['alerts'], e.version, e.suite,
+                                                   '' if ca is None else ', client certificate requested, client has %s'
+                                                   % ['none', 'an RSA certificate', 'an EC certificate'][C['cert']]), case)
+            # what went over the wire for client authentication may tell why
+            if ca is not None and not case.get('hs_truncated'):
+                cr = self._check_cert_request(case, e, ca)
+                if case.get('ccert') is not None and self._check_client_chain(case, C) and case.get('cv') is not None \
+                        and C['cert'] != 0 and case.get('cke_len') != 0:
+                    self._check_cert_verify(case, e, C, cr, ca)
             return
         if self._fatal_alerts(case, 0) or self._fatal_alerts(case, 1):
             self.viol('alert-mismatch', 'fatal alert on a completed handshake: %s' % case['alerts'], case)
@@ -782,21 +951,184 @@ class Checker:
             if oc[f] != osv[f]:
                 self.viol('sides-disagree:' + f, 'client %r, server %r' % (oc[f], osv[f]), case)
         self._check_server_hello(case, e, o, ch)
-        # client authentication
+        self._check_client_auth(case, e, ca)
+
+    # ---- client authentication (see the docstring for the source of each rule)
+    def _check_cert_request(self, case, e, ca):
+        """the CertificateRequest on the wire against the server configuration -> decoded request or None"""
+        if case.get('cr') is None or case.get('sh') is None:
+            return None
+        sh = parse_server_hello(case['sh'])
+        if sh['version'] != e.version or sh['suite'] != e.suite:
+            return None         # reported elsewhere; the request depends on both
+        try:
+            cr = parse_cert_request(bytes.fromhex(case['cr']), e.version)
+        except Malformed as ex:
+            self.viol('client-auth:cert-request-undecodable', 'CertificateRequest %s: %s' % (case['cr'], ex), case)
+            return None
+        self.stat('cmp_cert_request')
+        if len(cr['types']) != len(set(cr['types'])) or set(cr['types']) != ca['cr_types']:
+            self.viol('client-auth:cert-request-types', 'CertificateRequest lists certificate types %s, documented %s for suite '
+                      '%04x' % (cr['types'], sorted(ca['cr_types']), e.suite), case)
+        if ca['cr_sigalgs'] is not None:
+            self.stat('cmp_cert_request_algorithms')
+            if len(cr['sigalgs']) != len(set(cr['sigalgs'])) or set(cr['sigalgs']) != ca['cr_sigalgs']:
+                self.viol('client-auth:cert-request-algorithms', 'CertificateRequest lists (hash, signature) %s, the server '
+                          'engine has hash functions %s' % (cr['sigalgs'], case['S']['hashes']), case)
+        if sorted(cr['names']) != trust_anchor_names():
+            self.viol('client-auth:cert-request-names', 'CertificateRequest carries %d names that are not the configured trust '
+                      'anchor names' % len(cr['names']), case)
+        return cr
+
+    def _check_client_chain(self, case, C):
+        """the client's Certificate message against its configuration -> list of certificates or None"""
+        if case.get('ccert') is None:
+            self.viol('client-auth:no-certificate-message', 'no Certificate message answers the CertificateRequest (client '
+                      'messages %s)' % case['hs'][0], case)
+            return None
+        try:
+            certs = parse_cert_list(bytes.fromhex(case['ccert']))
+        except Malformed as ex:
+            self.viol('client-auth:certificate-undecodable', 'client Certificate message: %s' % ex, case)
+            return None
+        self.stat('cmp_client_chain')
+        if certs != client_chain(C['cert']):
+            self.viol('client-auth:chain-on-wire', 'client sends %d certificates (lengths %s), configured: %s'
+                      % (len(certs), [len(c) for c in certs],
+                         ['none', 'the RSA certificate', 'the EC certificate'][C['cert']]), case)
+            return None
+        return certs
+
+    def _validator_fed(self, case, certs):
+        """the server's X.509 engine was fed exactly the client's chain"""
+        osv = case['os']
+        fed = [(n, int(h, 16)) for n, h in osv['xfed']] if osv['xnow'] else []
+        wire = [(len(c), fnv1a64(c)) for c in certs]
+        return osv['xnow'] == (1 if certs else 0) and fed == wire
+
+    def _check_cert_verify(self, case, e, C, cr, ca):
+        """CertificateVerify of a signing client: algorithm bytes (TLS 1.2)"""
+        sigtype = 1 if C['cert'] == 1 else 3
+        try:
+            alg, sig = parse_cert_verify(bytes.fromhex(case['cv']), e.version)
+        except Malformed as ex:
+            self.viol('client-auth:verify-undecodable', 'CertificateVerify %s: %s' % (case['cv'], ex), case)
+            return
+        self.stat('cmp_cert_verify')
+        if not sig:
+            self.viol('client-auth:verify-empty-signature', 'CertificateVerify with an empty signature', case)
+        if e.version < TLS12:
+            self.stat('cert_verify_below_tls12')
+            return
+        self.stat('cmp_cert_verify_algorithm')
+        listed = list(cr['sigalgs']) if cr is not None else sorted(ca['cr_sigalgs'])
+        usable = {h for h, g in listed if g == sigtype and SHA1 <= h <= SHA512 and h in C['hashes']}
+        want = next((h for h in HASH_PREFERENCE if h in usable), None)
+        if alg not in listed:
+            self.viol('client-auth:verify-algorithm-not-listed', 'CertificateVerify names (hash, signature) %s, the '
+                      'CertificateRequest lists %s' % (alg, listed), case)
+        elif alg[1] != sigtype:
+            self.viol('client-auth:verify-signature-type', 'CertificateVerify names signature type %d for %s'
+                      % (alg[1], 'an RSA key' if sigtype == 1 else 'an EC key'), case)
+        elif alg[0] != want:
+            self.viol('client-auth:verify-hash-mismatch', 'CertificateVerify hash %d, reference %s (listed for the key type '
+                      'and present in the client: %s)' % (alg[0], want, sorted(usable)), case)
+        self.stat('cert_verify_hash_%d' % alg[0])
+        if alg[0] != SHA256:
+            self.stat('cert_verify_hash_other_than_sha256')
+
+    def _check_client_auth(self, case, e, ca):
+        """a completed handshake"""
+        C, S, osv = case['C'], case['S'], case['os']
         self.stat('cmp_client_cert')
-        sent_cert = 11 in case['hs'][0]
         asked = 13 in case['hs'][1]
         if asked != bool(S['creq']):
             self.viol('client-auth-mismatch', 'CertificateRequest on the wire: %s, configured: %s' % (asked, S['creq']), case)
-        elif S['creq']:
-            saw = osv['xcerts'] > 0
-            if saw != (C['cert'] != 0):
-                self.viol('client-auth-mismatch', 'server validator saw %d client certificates, client has %s'
-                          % (osv['xcerts'], ['none', 'an RSA certificate', 'an EC certificate'][C['cert']]), case)
-            elif saw and osv['xverdict'] != 0:
-                self.viol('client-auth-mismatch', 'completed although the validator verdict was %d' % osv['xverdict'], case)
-        elif osv['xchains'] or sent_cert:
-            self.viol('client-auth-mismatch', 'client certificate processed without a request', case)
+            return
+        if not S['creq']:
+            if osv['xchains'] or 11 in case['hs'][0] or 15 in case['hs'][0]:
+                self.viol('client-auth-mismatch', 'client certificate processed without a request', case)
+            return
+        self.stat('client_auth_requested')
+        if case.get('hs_truncated'):
+            self.stat('unjudged_client_auth_message_too_long_for_the_log')
+            return
+        cr = self._check_cert_request(case, e, ca)
+        certs = self._check_client_chain(case, C)
+        if certs is None:
+            return
+        self.stat('cmp_client_chain_validator')
+        if not self._validator_fed(case, certs):
+            self.viol('client-auth:validator-input', 'server validator ran %d times on %s (length, FNV-1a), the client sent %s'
+                      % (osv['xnow'], osv['xfed'], [(len(c), '%016x' % fnv1a64(c)) for c in certs]), case)
+            return
+        if certs and osv['xverdict'] != 0:
+            self.viol('client-auth-mismatch', 'completed although the validator verdict was %d' % osv['xverdict'], case)
+            return
+        cv, cke = case.get('cv'), case.get('cke_len')
+        if C['cert'] == 0:
+            # only under the tolerance flag (otherwise BR_ERR_NO_CLIENT_AUTH was expected)
+            self.stat('client_auth_none_tolerated')
+            if cv is not None:
+                self.viol('client-auth:proof-without-certificate', 'CertificateVerify from a client without certificate', case)
+            return
+        if len(C['hashes']) != 6 or len(S['hashes']) != 6:
+            self.stat('client_auth_with_reduced_hashes')
+        if len(C['curves']) != 4 or len(S['curves']) != 4:
+            self.stat('client_auth_with_reduced_curves')
+        if cv is None:
+            if cke == 0:
+                self.stat('client_auth_static_ecdh')
+                if not ca['static_possible']:
+                    self.viol('client-auth:static-ecdh-outside-its-conditions', 'empty ClientKeyExchange and no CertificateVerify '
+                              '(full static ECDH) with suite %04x, client certificate %d, server key curve %d'
+                              % (e.suite, C['cert'], S['kcurve']), case)
+            else:
+                self.viol('client-auth:no-proof-of-possession', 'client certificate sent, ClientKeyExchange of %s bytes and no '
+                          'CertificateVerify: completed without proof of possession' % cke, case)
+            return
+        if cke == 0:
+            self.viol('client-auth:verify-after-empty-key-exchange', 'CertificateVerify after an empty ClientKeyExchange', case)
+            return
+        self.stat('client_auth_rsa_signed' if C['cert'] == 1 else 'client_auth_ecdsa_signed')
+        if ca['static_possible']:
+            self.stat('client_auth_ecdsa_where_static_ecdh_possible')
+        self._check_cert_verify(case, e, C, cr, ca)
+
+    def _client_auth_safety(self, case, e, ca):
+        """client authentication in a situation the documentation does not settle: both sides agree, and nobody completes with
+        an unauthenticated client unless BR_OPT_TOLERATE_NO_CLIENT_AUTH is set"""
+        C, S, oc, osv = case['C'], case['S'], case['oc'], case['os']
+        self.stat('unjudged_client_auth_' + e.why.replace(' ', '_'))
+        self.stat('client_auth_requested')
+        self.stat('cmp_client_auth_safety')
+        if not case.get('hs_truncated'):
+            self._check_cert_request(case, e, ca)
+        if oc['done'] != osv['done']:
+            self.viol('sides-disagree:outcome', 'client done %d (err %d), server done %d (err %d)'
+                      % (oc['done'], oc['err'], osv['done'], osv['err']), case)
+            return
+        if not osv['done']:
+            self.stat('client_auth_unjudged_failed')
+            return
+        self.stat('client_auth_unjudged_completed')
+        for f in ('ver', 'suite'):
+            if oc[f] != osv[f] or oc[f] != (e.version if f == 'ver' else e.suite):
+                self.viol('sides-disagree:' + f, 'client %r, server %r, reference %r'
+                          % (oc[f], osv[f], e.version if f == 'ver' else e.suite), case)
+        if S['flags'] & OPT_TOLERATE_NO_CAUTH or case.get('hs_truncated'):
+            return
+        try:
+            certs = parse_cert_list(bytes.fromhex(case['ccert'])) if case.get('ccert') is not None else None
+        except Malformed:
+            certs = None
+        proof = case.get('cv') is not None or case.get('cke_len') == 0
+        if not certs or certs != client_chain(C['cert']) or not self._validator_fed(case, certs) or osv['xverdict'] != 0 \
+                or not proof:
+            self.viol('client-auth:unauthenticated-completion', 'completed without BR_OPT_TOLERATE_NO_CLIENT_AUTH although the '
+                      'client was not authenticated (certificates on the wire %s, validator runs %d verdict %d, CertificateVerify '
+                      '%s, ClientKeyExchange %s bytes)' % (None if certs is None else len(certs), osv['xnow'], osv['xverdict'],
+                                                         case.get('cv') is not None, case.get('cke_len')), case)
 
     # ---- a scripted ClientHello against a server engine
     def check_scripted(self, case):
@@ -1024,6 +1356,11 @@ class Checker:
             # the rest of the message would have to come in a record of another version
             defects['later_record_version_differs'] = {ERR_BAD_VERSION}
             complete = True
+        elif fl['status'] == 'incomplete' and fl['ccs'] is not None:
+            # a record of another type arrives while a handshake message is unfinished (H: BR_ERR_UNEXPECTED, "incoming
+            # record ... has wrong type with regards to the current engine state")
+            defects['other_record_type_inside_message'] = {ERR_UNEXPECTED}
+            complete = True
         sel_alpn, mfl_echo, reneg_echo = None, False, False
         if complete and not defects:
             for t, body in fl['ext'] or []:
@@ -1054,6 +1391,16 @@ class Checker:
                         self.stat('unjudged_srvhello_next_header_incomplete')
                         return
                     defects['next_message_not_certificate'] = {ERR_UNEXPECTED}
+                elif len(lo) >= 4 and int.from_bytes(lo[1:4], 'big') == 3:
+                    # a Certificate message that holds nothing but the length of its certificate list
+                    if len(lo) < 7:
+                        self.stat('unjudged_srvhello_short_certificate_incomplete')
+                        return
+                    if lo[4:7] == b'\x00\x00\x00':
+                        defects['empty_certificate_list'] = None
+                    else:
+                        defects['certificate_list_length'] = None
+                    self.stat('srvhello_certificate_message_of_length_3')
             elif fl['rec2_bad']:
                 defects['later_record_version_differs'] = {ERR_BAD_VERSION}
             elif fl['ccs'] is not None:
